@@ -30,7 +30,16 @@ for f in logs:
             r["checks"][c] = {"exit": int(e), "violations": int(v), "wall_s": int(w)}
 
 def ign(d, names):
-    return [x for x in names if x in ("out", "gocc", "gen", "generated") or x.endswith(".test") or x.startswith("gocc.")]
+    out = []
+    for x in names:
+        fp = os.path.join(d, x)
+        if x in ("out", "gocc", "gen", "generated", "o") and os.path.isdir(fp) or x == "gocc" or x.endswith((".test", ".bin", ".exe")) or x.startswith("gocc."):
+            out.append(x)
+        elif os.path.isdir(fp) and os.path.isdir(os.path.join(fp, "token")) and os.path.isdir(os.path.join(fp, "util")):
+            out.append(x)  # packages a demo run generated
+        elif os.path.isfile(fp) and (os.path.getsize(fp) > 300000 or open(fp, 'rb').read(4) == b'\x7fELF'):
+            out.append(x)
+    return out
 
 for (pid, n), r in sorted(res.items()):
     w = f"{root}/{pid}.work"
@@ -46,8 +55,10 @@ for (pid, n), r in sorted(res.items()):
     shutil.copytree(f"{w}/demo{n}", f"{dst}/demo", ignore=ign)
     desc = open(f"{w}/mutant{n}.md").read()
     open(f"{dst}/description.md", "w").write(desc)
-    m = re.search(r'^(Exposed by|Needs|Trigger)[^\n]*:(.*?)(?=^\S[^\n]*:|\Z)', desc, re.M | re.S)
-    needs = (m.group(0).strip() if m else desc.strip())[:1500]
+    m = re.search(r'(Exposed by|It needs|Needs|Trigger|What exposes it|Manifest)', desc)
+    needs = desc[m.start():] if m else desc
+    cut = re.search(r'\n\s*\n|\n(Not exposed|Ordinary use|Why ordinary|Without|Demo|Not shown|What hides)', needs)
+    needs = (needs[:cut.start()] if cut else needs).strip()[:1200]
     caught = sorted(c for c, x in r["checks"].items() if x["exit"] == 1 and x["violations"] > 0)
     first = {}
     for c in caught:
